@@ -67,6 +67,25 @@ def body_statements(func):
     return [s for s in kids(func.body)]
 
 
+_EXPAND = {}
+
+
+def _may_expand(name):
+    """calls of one-expression functions are replaced by the expression - for the functions that were one-liners on the
+    validated tree (sa/trivial_accessors.txt) and for helpers the reference does not know at all"""
+    if not _EXPAND:
+        import os
+        here = os.path.dirname(os.path.abspath(__file__))
+        def rd(fn):
+            try:
+                return {l.strip() for l in open(os.path.join(here, fn)) if l.strip() and not l.startswith("#")}
+            except OSError:
+                return set()
+        _EXPAND["trivial"] = rd("trivial_accessors.txt")
+        _EXPAND["known"] = rd("known_helpers.txt")
+    return name in _EXPAND["trivial"] or name not in _EXPAND["known"]
+
+
 def trivial_return(func):
     """If func's body is assertions/logging + one `return e;` give e, else None."""
     ret = None
@@ -287,7 +306,7 @@ class FuncCtx:
             if nm is not None and depth < 12:
                 f = self.model.funcs.get(self.model.resolve(self.func.unit, nm))
                 if f is not None:
-                    r = trivial_return(f)
+                    r = trivial_return(f) if _may_expand(nm) else None
                     if r is not None and len(f.params) == len(args):
                         sub = {p["id"]: a for p, a in zip(f.params, args)}
                         return FuncCtx(self.model, f).canon(r, depth + 1, sub)
